@@ -31,7 +31,7 @@ CHECKS = {
                 "axis-pure no-overlap shortcut; the sparse overlap table enumerates the upper triangle, keeps every non-zero overlap (zero-test only), halves the diagonal iff the consumer adds the transpose, "
                 "with exact slot / length / flat counters; unique-mapping kernels accumulate w0*w1*overlap into F[pix0,pix1] and w*w_tilde_data into D[pix]; mapping formalism is d*B/sigma^2 and (B/sigma)^T(B/sigma); "
                 "the small diagonal term is added only at the no-regularization indices, only when that list is non-empty, at every call site; block offsets advance by params once per object, unconditionally. "
-                "Not decided: numerical agreement of the two formalisms, symmetry to rounding, reconstruction equality.",
+                "the mirror of the half-filled w-tilde matrix copies every non-zero entry to its own and to the transposed position over the full range. Not decided: numerical agreement of the two formalisms, symmetry to rounding, reconstruction equality.",
         "note": "Trusted: Python ast, E1 resolver, numpy indexing/broadcast semantics, np.dot, the reference forms.",
         "technique": "static analysis: abstract evaluation of kernels to polynomial normal forms + canonical-form equality; counter typestate; zero-test guard rule; call-site guard/argument rule over the resolved call graph",
     },
@@ -39,7 +39,7 @@ CHECKS = {
         "text": "Decides, for every mask and value array, that slim index k is the k-th unmasked pixel in row-major order in every producer (7 gather / counting nests, 1-D and 2-D: counter from 0, +1 exactly once per unmasked "
                 "pixel, full ranges with axis 0 outer, stores at the pre-increment counter), that each gather stores the value at the loop position into an array sized by the unmasked count of the same mask, that the "
                 "3 scatters write slim entry k at native_index_for_slim_index[k] (row, column) for all k into zeros of the native shape, that slim->native composes the index list of the same mask, that masked / unmasked "
-                "flattened-index lists come from one flag-parameterised nest recording the row-major flat index, that native inputs are multiplied by the inverted mask on every non-skip path of the three converters, that the "
+                "flattened-index lists come from one flag-parameterised nest recording the row-major flat index, that native inputs are multiplied by the inverted mask on every non-skip path of the three converters and that the converters hand back the input as it is / slimmed / expanded for each of the four (input form, store_native) combinations, that the "
                 "10 .slim/.native properties re-enter the constructor on self.mask with store_native False/True, and that grid components are converted and re-stacked in (y, x) order. Values are only copied, so nothing numerical remains; "
                 "trusted: numpy indexing/assignment and np.stack ordering.",
         "note": "Trusted: Python ast, E1 resolver, numpy basic indexing/assignment semantics. 1-D converters do not zero masked entries of a native input and the property does not ask them to.",
